@@ -596,6 +596,10 @@ fn gen14(seed: u64, idx: u64, _t: Tier) -> J {
 		c.stdin_plan = Some(plan_for(&mut r, 64, true));
 	}
 	c.nommap = r.chance(1, 3);
+	if c.stdin.is_some() && r.chance(1, 4) {
+		// fd 0 is a regular file that an earlier reader has already partly consumed
+		c.stdin_skip = r.range(1, 300);
+	}
 	if r.chance(1, 4) {
 		c.wsched = gen::gen_sched(&mut r, 256);
 	}
@@ -814,7 +818,8 @@ fn gen15(seed: u64, idx: u64, _t: Tier) -> J {
 			3 => r.range(7800, 8600),
 			4 => r.log_range(9000, 100_000),
 			_ => {
-				if r.chance(1, 12) {
+				// (a regular file of a MiB or more: mapped, advised, read ahead by the kernel)
+				if r.chance(1, 4) {
 					r.log_range(1_000_000, 3_000_000)
 				} else {
 					r.log_range(100, 20_000)
